@@ -582,11 +582,17 @@ func genProc(r *Rand, n int, tier string, w *bufio.Writer) {
 			}
 			planned = append(planned, d)
 		}
+		// complete[i]: every result of batch i is going to be delivered by `chk` ops
+		complete := make([]bool, nb)
+		for i := range bs {
+			complete[i] = len(planned[i]) == len(bs[i].ids)
+		}
 		// sometimes the very last result (of the last batch) arrives while Stop() is being called
 		var mid *deliv
 		if cut >= nb-1 && len(planned[nb-1]) > 0 && r.Chance(1, 3) {
 			d := planned[nb-1][len(planned[nb-1])-1]
 			planned[nb-1] = planned[nb-1][:len(planned[nb-1])-1]
+			complete[nb-1] = false
 			mid = &d
 		}
 		enq := 0
@@ -620,11 +626,25 @@ func genProc(r *Rand, n int, tier string, w *bufio.Writer) {
 				}
 				fmt.Fprintf(w, "chk %d %d %d\n", d.b, d.pos, e)
 			}
-			if r.Chance(1, 6) {
+			if r.Chance(1, 4) {
 				w.WriteString("sync\n")
-				if r.Chance(1, 2) {
-					// an event (possibly one that is buffered as incomplete) gets connected by another route
-					fmt.Fprintf(w, "conn %d\n", evs[r.Intn(len(evs))].id)
+				// an event (possibly one that is buffered as incomplete) gets connected by another route — only at a
+				// point where the inserter is certainly idle: every enqueued batch was delivered completely, so `sync`
+				// has waited for its `done` (a partially delivered batch may still be inside a process() call)
+				idle := true
+				for i := 0; i < enq; i++ {
+					if len(planned[i]) > 0 || !complete[i] {
+						idle = false
+					}
+				}
+				if idle && enq > 0 && r.Chance(2, 3) {
+					// preferably an event that was enqueued already (it may sit in the buffer as incomplete)
+					b := bs[r.Intn(enq)]
+					if len(b.ids) > 0 && r.Chance(3, 4) {
+						fmt.Fprintf(w, "conn %d\n", b.ids[r.Intn(len(b.ids))])
+					} else {
+						fmt.Fprintf(w, "conn %d\n", evs[r.Intn(len(evs))].id)
+					}
 				}
 			}
 		}
